@@ -380,4 +380,135 @@ theorem boxGeos_sound : Sound boxGeos := by
   · intro s l e h hse
     simp [boxGeos, Geom.bounds, Geom.boundPts, ptsBounds, hse]
 
+/-! ### review additions: exact bounds, the route, rounding arithmetics -/
+
+/-- `geometry_to_shapely g .bounds` is the coordinate-wise minimum / maximum (`Geom.bounds`); these are
+    comparisons only, exact in binary64 (checked exactly at run time on every measured shape) -/
+structure BoundsExact (G : Geos σ) : Prop where
+  st_ofGeom : ∀ g b, g.bounds = some b → G.st (G.ofGeom g) = b.st
+  en_ofGeom : ∀ g b, g.bounds = some b → G.en (G.ofGeom g) = b.en
+
+/-- the laws of a rounding arithmetic that the range / symmetry / self / disjoint clauses need:
+    monotone, exact on 0 and 1, idempotent, doubling of a representable number is exact
+    (binary64 round-to-nearest without overflow obeys them) -/
+structure IsRounding (rnd : Rat → Rat) : Prop where
+  mono : ∀ x y, x ≤ y → rnd x ≤ rnd y
+  zero : rnd 0 = 0
+  one : rnd 1 = 1
+  idem : ∀ x, rnd (rnd x) = rnd x
+  dbl : ∀ x, rnd x = x → rnd (2 * x) = 2 * x
+
+/-- what GEOS returns are numbers of the arithmetic -/
+structure Representable (rnd : Rat → Rat) (G : Geos σ) : Prop where
+  area : ∀ x, rnd (G.area x) = G.area x
+  inter : ∀ x y, rnd (G.inter x y) = G.inter x y
+
+theorem isRounding_id : IsRounding id :=
+  ⟨fun _ _ h => h, rfl, rfl, fun _ => rfl, fun _ _ => rfl⟩
+
+theorem IsRounding.nonneg {rnd : Rat → Rat} (R : IsRounding rnd) (x : Rat) (h : 0 ≤ x) : 0 ≤ rnd x := by
+  have := R.mono 0 x h; rwa [R.zero] at this
+
+theorem IsRounding.nonpos {rnd : Rat → Rat} (R : IsRounding rnd) (x : Rat) (h : x ≤ 0) : rnd x ≤ 0 := by
+  have := R.mono x 0 h; rwa [R.zero] at this
+
+/-- the rounded overlap `i`, and the rounded union `u ≥ i`, of two ordered extents -/
+theorem timeR_facts {rnd : Rat → Rat} (R : IsRounding rnd) (s1 e1 s2 e2 : Rat) (h1 : s1 ≤ e1) (h2 : s2 ≤ e2) :
+    0 ≤ max 0 (rnd (min e1 e2 - max s1 s2)) ∧
+    max 0 (rnd (min e1 e2 - max s1 s2)) ≤
+      rnd (rnd (rnd (e1 - s1) + rnd (e2 - s2)) - max 0 (rnd (min e1 e2 - max s1 s2))) := by
+  have hm1 : min e1 e2 - max s1 s2 ≤ e1 - s1 := by
+    have := min_le_left e1 e2; have := le_max_left s1 s2; linarith
+  have hm2 : min e1 e2 - max s1 s2 ≤ e2 - s2 := by
+    have := min_le_right e1 e2; have := le_max_right s1 s2; linarith
+  have d1 : 0 ≤ rnd (e1 - s1) := R.nonneg _ (by linarith)
+  have d2 : 0 ≤ rnd (e2 - s2) := R.nonneg _ (by linarith)
+  generalize hi : max 0 (rnd (min e1 e2 - max s1 s2)) = i
+  have i0 : 0 ≤ i := by rw [← hi]; exact le_max_left _ _
+  have ir : rnd i = i := by
+    rw [← hi]
+    rcases max_cases 0 (rnd (min e1 e2 - max s1 s2)) with ⟨h, _⟩ | ⟨h, _⟩ <;> rw [h]
+    · exact R.zero
+    · exact R.idem _
+  have i1 : i ≤ rnd (e1 - s1) := by rw [← hi]; exact max_le d1 (R.mono _ _ hm1)
+  have i2 : i ≤ rnd (e2 - s2) := by rw [← hi]; exact max_le d2 (R.mono _ _ hm2)
+  have hS : 2 * i ≤ rnd (rnd (e1 - s1) + rnd (e2 - s2)) := by
+    have := R.mono (2 * i) (rnd (e1 - s1) + rnd (e2 - s2)) (by linarith)
+    rwa [R.dbl i ir] at this
+  refine ⟨i0, ?_⟩
+  have := R.mono i (rnd (rnd (e1 - s1) + rnd (e2 - s2)) - i) (by linarith)
+  rwa [ir] at this
+
+theorem prepareR_spec (rnd : Rat → Rat) (G : Geos σ) (g : Geom) (tb fb : Rat) :
+    prepareR rnd G g tb fb = match g with
+      | .timeStamp t => if tb < 0 ∨ fb < 0 then .error .invalid
+                        else .ok (.interval "TimeInterval" (max (rnd (t - tb)) 0) (rnd (t + tb)))
+      | g => prepare G g tb fb := by
+  cases g <;> simp [prepareR, prepare, bufferGeometryR, bufferGeometry, asPrep, Geom.tag, bufferTypes]
+
+theorem prepareR_id (G : Geos σ) (g : Geom) (tb fb : Rat) : prepareR id G g tb fb = prepare G g tb fb := by
+  rw [prepareR_spec]; cases g <;> simp only [prepare_spec, id]
+
+/-- a prepared geometry that is not a time interval was prepared without arithmetic -/
+theorem prepareR_nontime (rnd : Rat → Rat) (G : Geos σ) (g : Geom) (tb fb : Rat) (p : Prep σ)
+    (h : prepareR rnd G g tb fb = .ok p) (hn : isTime p = false) : prepare G g tb fb = .ok p := by
+  rw [prepareR_spec] at h
+  cases g <;> simp only at h <;> try exact h
+  split at h
+  · cases h
+  · cases h; simp [isTime_interval] at hn
+
+theorem prepareR_error (rnd : Rat → Rat) (G : Geos σ) (g : Geom) (tb fb : Rat) (e : Err)
+    (h : prepareR rnd G g tb fb = .error e) : e = .invalid ∧ (tb < 0 ∨ fb < 0) := by
+  rw [prepareR_spec] at h
+  cases g <;> simp only at h <;> try exact prepare_error G _ tb fb e h
+  split at h
+  · cases h; exact ⟨rfl, by assumption⟩
+  · cases h
+
+theorem prepareR_ordered {rnd : Rat → Rat} (R : IsRounding rnd) (G : Geos σ) (hG : ∀ x, G.st x ≤ G.en x)
+    (g : Geom) (tb fb : Rat) (p : Prep σ) (hw : WF g) (h : prepareR rnd G g tb fb = .ok p) :
+    (timeBounds G p).1 ≤ (timeBounds G p).2 := by
+  rw [prepareR_spec] at h
+  cases g <;> simp only at h <;> try exact prepare_ordered G hG _ tb fb p hw h
+  rename_i t
+  split at h
+  · cases h
+  · rename_i hneg
+    cases h
+    simp only [timeBounds, WF] at hw ⊢
+    have h1 : ¬ tb < 0 := fun c => hneg (Or.inl c)
+    have h1 := not_lt.1 h1
+    exact max_le (R.mono _ _ (by linarith)) (R.nonneg _ (by linarith))
+
+theorem affinityR_eq (rnd : Rat → Rat) (G : Geos σ) (g1 g2 : Geom) (tb fb : Rat) (p1 p2 : Prep σ)
+    (h1 : prepareR rnd G g1 tb fb = .ok p1) (h2 : prepareR rnd G g2 tb fb = .ok p2) :
+    affinityR rnd G g1 g2 tb fb = .ok (affinityPR rnd G p1 p2) := by
+  unfold affinityR; rw [h1, h2]
+
+theorem affinityR_ok_prepared (rnd : Rat → Rat) (G : Geos σ) (g1 g2 : Geom) (tb fb v : Rat)
+    (h : affinityR rnd G g1 g2 tb fb = .ok v) :
+    ∃ p1 p2, prepareR rnd G g1 tb fb = .ok p1 ∧ prepareR rnd G g2 tb fb = .ok p2 ∧ v = affinityPR rnd G p1 p2 := by
+  unfold affinityR at h
+  rcases h1 : prepareR rnd G g1 tb fb with e1 | p1 <;> rw [h1] at h <;> simp only at h
+  · cases h
+  · rcases h2 : prepareR rnd G g2 tb fb with e2 | p2 <;> rw [h2] at h <;> simp only at h
+    · cases h
+    · cases h; exact ⟨p1, p2, rfl, rfl, rfl⟩
+
+/-- duration (time branch, as the arithmetic computes it) or area of a prepared geometry -/
+def extentR (rnd : Rat → Rat) (G : Geos σ) (p : Prep σ) : Rat :=
+  if isTime p then rnd ((timeBounds G p).2 - (timeBounds G p).1) else G.area (toShape G p)
+
+/-- the time extent of a geometry that `_prepare_geometry` leaves alone or buffers in closed form -/
+def closedExtent (g : Geom) (tb : Rat) : Option (Rat × Rat) :=
+  match g with
+  | .timeStamp t => some (max (t - tb) 0, t + tb)
+  | .timeInterval s e => some (s, e)
+  | .boundingBox s _ e _ => some (s, e)
+  | .polygon r => (Geom.polygon r).bounds.map (fun b => (b.st, b.en))
+  | .multiPolygon r => (Geom.multiPolygon r).bounds.map (fun b => (b.st, b.en))
+  | _ => none
+
+
 end SE.Affinity
